@@ -106,6 +106,7 @@ class Profile:
 
 class C08(Profile):
     name = "C08"
+    runs = {"quick": 3000, "thorough": 150000}
     steps = (25, 40)
 
     @property
@@ -119,6 +120,7 @@ class C08(Profile):
 
 class C02(Profile):
     name = "C02"
+    runs = {"quick": 6000, "thorough": 300000}
     steps = (20, 40)
     expected_probes = ["add_heralded_sub", "ancilla_inside_span",
                        "herald_in_ne_out_on_parent_with_ancilla",
@@ -142,6 +144,7 @@ class C02(Profile):
 
 class C09(Profile):
     name = "C09"
+    runs = {"quick": 4000, "thorough": 200000}
     steps = (25, 45)
     expected_probes = ["rewrite_unpack", "rewrite_compress",
                        "rewrite_remove_nonadj", "copy_plain", "copy_frozen"]
@@ -157,6 +160,7 @@ class C09(Profile):
 
 class C10(Profile):
     name = "C10"
+    runs = {"quick": 5000, "thorough": 250000}
     steps = (25, 45)
     expected_probes = ["twin_compared", "twin_unbuildable",
                        "invalid_value_surfaced", "rejected_update_checked"]
@@ -180,6 +184,7 @@ class C10(Profile):
 
 class C11(Profile):
     name = "C11"
+    runs = {"quick": 2500, "thorough": 100000}
     steps = (30, 60)
     expected_probes = ["fresh_compared", "sampling_without_prior_read",
                        "both_raise", "first_read_after_fault",
@@ -218,8 +223,8 @@ class C11(Profile):
 
 class C07(Profile):
     name = "C07"
+    runs = {"quick": 1500, "thorough": 40000}
     steps = (25, 45)
-    runs = {"quick": 700, "thorough": 30000}
     expected_probes = ["per_call_checked", "seed_pair_checked",
                        "distribution_checked"]
 
@@ -253,8 +258,9 @@ class C07(Profile):
 
 class C15(Profile):
     name = "C15"
+    real_hash_check = True
+    runs = {"quick": 3000, "thorough": 120000}
     steps = (30, 55)
-    runs = {"quick": 1000, "thorough": 40000}
     expected_probes = ["protocol_checked", "rho_checked",
                        "same_state_other_order", "qpu_failure_propagated",
                        "retry_after_qpu_failure"]
@@ -292,8 +298,8 @@ class C15(Profile):
 
 class C14(Profile):
     name = "C14"
+    runs = {"quick": 3000, "thorough": 150000}
     steps = (30, 55)
-    runs = {"quick": 1200, "thorough": 40000}
     expected_probes = ["map_checked", "default_model_map", "noisy_model_map",
                        "same_seed_remap", "resample_loop_scripted",
                        "phase_offsets_checked", "draw_checked"]
@@ -325,7 +331,40 @@ class C14(Profile):
         return cfg
 
 
-PROFILES = {"C14": C14(), "C15": C15(), "C07": C07(), "C11": C11(), "C08": C08(), "C02": C02(), "C09": C09(), "C10": C10()}
+class C17(Profile):
+    name = "C17"
+    real_hash_check = True
+    runs = {"quick": 4000, "thorough": 200000}
+    steps = (25, 45)
+    expected_probes = ["indexing_checked", "mapping_checked",
+                       "mapping_under_two_orders", "column_order_differed",
+                       "amplitude_mapping_refused", "repeated_mapping_checked"]
+    stubs = Profile.stubs + [
+        "SimSet: module-global `set` injected into results.simulation_result "
+        "et al., iteration order = f(permutation seed)"]
+
+    @property
+    def monitors(self):
+        from .results import ResultMonitor  # noqa: PLC0415
+        return [ResultMonitor]
+
+    @property
+    def clients(self):
+        from .results import ResultUser  # noqa: PLC0415
+        return [(cl.Builder, 2), (cl.Composer, 0.7), (ResultUser, 6)]
+
+    def swarm(self, rng):
+        cfg = super().swarm(rng)
+        cfg["simset"] = True
+        cfg["max_modes"] = rng.randint(2, 5)
+        cfg["max_total_modes"] = 6
+        cfg["max_params"] = 0
+        cfg["p_param"] = 0
+        cfg["weights"]["result_user"] = max(cfg["weights"]["result_user"], 3)
+        return cfg
+
+
+PROFILES = {"C17": C17(), "C14": C14(), "C15": C15(), "C07": C07(), "C11": C11(), "C08": C08(), "C02": C02(), "C09": C09(), "C10": C10()}
 
 
 def get(name: str) -> Profile:
